@@ -281,9 +281,9 @@ package container
 //@ func container.(*container).sendCmd props C10
 //@   arith int
 //@   requires send_ok(H.st, int(cmd.Cmd))
-//@   assigns H.st
-//@   abstracts result == nil ==> H.st == send_next(old(H.st), int(cmd.Cmd))
-//@   abstracts result != nil ==> H.st == 9
+//@   assigns H.st, H.sent, H.last_cmd
+//@   abstracts result == nil ==> H.st == send_next(old(H.st), int(cmd.Cmd)) && H.sent == old(H.sent) + 1 && H.last_cmd == int(cmd.Cmd)
+//@   abstracts result != nil ==> H.st == 9 && H.sent == old(H.sent) && H.last_cmd == old(H.last_cmd)
 //@   abstracts old(H.st) == 9 ==> result != nil
 
 //@ func container.(*container).recvReply props C10
@@ -318,34 +318,37 @@ package container
 //@ func container.(*container).Ping props C10
 //@   arith int
 //@   requires c != nil && c.socket != nil && c.socket.Socket != nil && c.socket.Socket.UnixConn != nil && (H.st == 0 || H.st == 9)
-//@   assigns H.st, H.batch, H.fds
+//@   assigns H.st, H.batch, H.fds, H.sent, H.last_cmd
 //@   ensures H.st == 0 || H.st == 9
+//@   ensures @C10 result == nil ==> H.sent == old(H.sent) + 1 && H.last_cmd == 1
 //@   ensures H.st == 9 ==> result != nil
 
 //@ func container.(*container).Delete props C10 C14
 //@   arith int
 //@   requires c != nil && (H.st == 0 || H.st == 9)
-//@   assigns H.st, H.batch, H.fds
+//@   assigns H.st, H.batch, H.fds, H.sent, H.last_cmd
 //@   ensures H.st == 0 || H.st == 9
+//@   ensures @C10 @C14 result == nil ==> H.sent == old(H.sent) + 1 && H.last_cmd == 3
 //@   ensures H.st == 9 ==> result != nil
 
 //@ func container.(*container).Reset props C10 C13
 //@   arith int
 //@   requires c != nil && (H.st == 0 || H.st == 9)
-//@   assigns H.st, H.batch, H.fds
+//@   assigns H.st, H.batch, H.fds, H.sent, H.last_cmd
 //@   ensures H.st == 0 || H.st == 9
+//@   ensures @C10 @C13 result == nil ==> H.sent == old(H.sent) + 1 && H.last_cmd == 4
 //@   ensures H.st == 9 ==> result != nil
 
 //@ func container.(*container).conf props C10
 //@   arith int
 //@   requires c != nil && conf != nil && (H.st == 0 || H.st == 9)
-//@   assigns H.st, H.batch, H.fds
+//@   assigns H.st, H.batch, H.fds, H.sent, H.last_cmd
 //@   ensures H.st == 0 || H.st == 9
 
 //@ func container.(*container).Symlink props C10 C14
 //@   arith int
 //@   requires c != nil && (H.st == 0 || H.st == 9)
-//@   assigns H.st, H.batch, H.fds
+//@   assigns H.st, H.batch, H.fds, H.sent, H.last_cmd
 //@   ensures H.st == 0 || H.st == 9
 //@   ensures @C14 result.1 == nil ==> len(result.0) == len(l) && len(H.batch) == len(l)
 //@   ensures @C14 result.1 == nil ==> forall i int :: 0 <= i && i < len(l) ==> ((len(H.batch[i]) == 0) <==> (result.0[i] == nil))
@@ -355,13 +358,13 @@ package container
 //@ func container.(*container).execveSyncKill props C10
 //@   arith int
 //@   requires c != nil && (H.st == 3 || H.st == 9)
-//@   assigns H.st, H.batch, H.fds
+//@   assigns H.st, H.batch, H.fds, H.sent, H.last_cmd
 //@   ensures H.st == 0 || H.st == 9
 
 //@ func container.(*container).waitForDone props C10 C11 C09
 //@   arith int
 //@   requires c != nil && ctx != nil && (H.st == 5 || H.st == 9)
-//@   assigns H.st, H.batch, H.fds, CR.n, CR.status, CR.exit
+//@   assigns H.st, H.batch, H.fds, H.sent, H.last_cmd, CR.n, CR.status, CR.exit
 //@   ensures H.st == 0 || H.st == 9
 //@   ensures @C09 CR.n == old(CR.n) + 1 && result.Status == CR.status && result.ExitStatus == CR.exit
 
@@ -373,7 +376,7 @@ package container
 //@ func container.(*container).Execve props C10
 //@   arith int
 //@   requires c != nil && ctx != nil && (H.st == 0 || H.st == 9)
-//@   assigns H.st, H.batch, H.fds, CR.n, CR.status, CR.exit
+//@   assigns H.st, H.batch, H.fds, H.sent, H.last_cmd, CR.n, CR.status, CR.exit
 //@   ensures H.st == 0 || H.st == 9
 //@   callsite (*container).sendCmd: assert @C10 int(cmd.Cmd) == 5 ==> cmd.ExecCmd != nil
 
@@ -411,7 +414,7 @@ package container
 //@ func container.(*container).Open props C10 C12 C14
 //@   arith int
 //@   requires c != nil && (H.st == 0 || H.st == 9)
-//@   assigns H.st, H.batch, H.fds, FD.closed, FD.cloexec, FC.closed
+//@   assigns H.st, H.batch, H.fds, H.sent, H.last_cmd, FD.closed, FD.cloexec, FC.closed
 //@   ensures @C10 H.st == 0 || H.st == 9
 //@   ensures @C14 err == nil ==> len(results) == len(p) && len(H.batch) == len(p)
 //@   ensures @C14 err == nil ==> forall i int :: 0 <= i && i < len(p) ==> (len(H.batch[i]) != 0 ==> results[i].File == nil && results[i].Err != nil)
@@ -468,7 +471,7 @@ package container
 //@   requires b != nil && H.st == 0
 //@   callsite (*container).conf: assert @C05 (len(b.Mounts) != 0 ==> conf.Mounts == b.Mounts) && (len(b.MaskPaths) != 0 ==> conf.MaskPaths == b.MaskPaths) && conf.ContainerRoot == root && conf.WorkDir == workDir
 //@   callsite (*container).conf: assert @C04 conf.Cred == (b.CredGenerator != nil) && conf.ContainerUID == b.ContainerUID && conf.ContainerGID == b.ContainerGID && conf.UnshareCgroup == b.UnshareCgroupBeforeExec && conf.HostName == hostName && conf.DomainName == domainName
-//@   assigns H.st, H.batch, H.fds, PR.started, PR.killed, PR.waited, FD.closed, FD.cloexec, FC.closed
+//@   assigns H.st, H.batch, H.fds, H.sent, H.last_cmd, PR.started, PR.killed, PR.waited, FD.closed, FD.cloexec, FC.closed
 //@   ensures @C12 result.1 != nil ==> forall p *os.Process :: PR.started[p] && !old(PR.started)[p] ==> PR.killed[p] && PR.waited[p]
 //@ func container.newPassCredSocketPair props C16
 //@   arith int
